@@ -1,6 +1,6 @@
 (* C09 — merge loses nothing when inputs agree on names; identity and fold laws. *)
 From Sigtools.Model Require Import Base Bind Roles Algebra Universe.
-From Sigtools.Proofs Require Import SmallModel Basics SweepDefs Bounded MergeNeutral MergeIdem SweepDefs2 SweepDefs3 Bounded3.
+From Sigtools.Proofs Require Import SmallModel Basics SweepDefs Bounded MergeNeutral MergeIdem SweepDefs2 SweepDefs3 Bounded3 MergeNeutralL FoldLaw.
 
 (* apply_params(s, *sort_params(s)) equals s, for all valid signatures *)
 Theorem C09_sort_apply_roundtrip s :
@@ -67,3 +67,43 @@ Theorem C09_idempotent s :
   exists r, merge [s; s] = Ok r /\ params r = params s.
 Proof. exact (merge_idempotent s). Qed.
 Print Assumptions C09_idempotent.
+
+(* ---- left neutrality (exact law, Proofs/MergeNeutralL.v) and the fold law for ALL signatures and any
+   arity (Proofs/FoldLaw.v): merging a list equals folding the binary merge unless an intermediate
+   result fails in the final validating constructor; the unconditional laws are refuted ---- *)
+Theorem C09_merge_left_neutral : forall (s : sigT) (nva nvk : name) (sl : srcmap) (dl : depths), valid_sig (params s) = true -> stars_plain (params s) -> exists (src : srcmap) (dep : depths), merge [starsig nva nvk sl dl; s] = (if validate (lneutral nva nvk (params s)) then Ok {| params := lneutral nva nvk (params s); ret := None; uret := UEmpty; srcs := src; deps := dep |} else Err ValueErr).
+Proof. exact @MergeNeutralL.merge_left_neutral. Qed.
+Print Assumptions C09_merge_left_neutral.
+
+Theorem C09_merge_left_neutral_fresh : forall (s : sigT) (nva nvk : name) (sl : srcmap) (dl : depths), valid_sig (params s) = true -> stars_plain (params s) -> ~ In nva (names_of (params s)) -> ~ In nvk (names_of (params s)) -> nva <> nvk -> exists r : sigT, merge [starsig nva nvk sl dl; s] = Ok r /\ params r = lneutral nva nvk (params s).
+Proof. exact @MergeNeutralL.merge_left_neutral_fresh. Qed.
+Print Assumptions C09_merge_left_neutral_fresh.
+
+Theorem C09_merge_left_neutral_same : forall (s : sigT) (nva nvk : name) (sl : srcmap) (dl : depths), valid_sig (params s) = true -> stars_plain (params s) -> (forall p : param, In p (params s) -> pkind p = VP -> pname p = nva) -> (forall p : param, In p (params s) -> pkind p = VK -> pname p = nvk) -> exists r : sigT, merge [starsig nva nvk sl dl; s] = Ok r /\ params r = params s.
+Proof. exact @MergeNeutralL.merge_left_neutral_same. Qed.
+Print Assumptions C09_merge_left_neutral_same.
+
+Theorem C09_merge_left_neutral_refuted : exists (s : sigT) (nva nvk : name), valid_sig (params s) = true /\ stars_plain (params s) /\ merge [starsig nva nvk [] []; s] = Err ValueErr.
+Proof. exact @MergeNeutralL.merge_left_neutral_refuted. Qed.
+Print Assumptions C09_merge_left_neutral_refuted.
+
+Theorem C09_merge_fold_step : forall (a b : sigT) (rest : list sigT) (r1 : sigT), merge [a; b] = Ok r1 -> merge (a :: b :: rest) = merge (r1 :: rest).
+Proof. exact @FoldLaw.merge_fold_step. Qed.
+Print Assumptions C09_merge_fold_step.
+
+Theorem C09_merge_fold_law : forall a b c : sigT, merge [a; b] <> Err ValueErr -> merge_nested [a; b; c] = merge [a; b; c].
+Proof. exact @FoldLaw.merge_fold_law. Qed.
+Print Assumptions C09_merge_fold_law.
+
+Theorem C09_merge_fold_rc : forall a b c : sigT, valid_sig (params a) = true -> valid_sig (params b) = true -> role_consistent [params a; params b] = true -> merge_nested [a; b; c] = merge [a; b; c].
+Proof. exact @FoldLaw.merge_fold_rc. Qed.
+Print Assumptions C09_merge_fold_rc.
+
+Theorem C09_merge_nested_differs_only_on_value_error : forall (s0 s1 : sigT) (ss : list sigT), merge_nested (s0 :: s1 :: ss) = merge (s0 :: s1 :: ss) \/ merge_nested (s0 :: s1 :: ss) = Err ValueErr.
+Proof. exact @FoldLaw.merge_nested_differs_only_on_value_error. Qed.
+Print Assumptions C09_merge_nested_differs_only_on_value_error.
+
+Theorem C09_merge_fold_law_unconditional_refuted : exists a b c : sigT, valid_sig (params a) = true /\ valid_sig (params b) = true /\ valid_sig (params c) = true /\ merge_nested [a; b; c] = Err ValueErr /\ merge [a; b; c] <> Err ValueErr.
+Proof. exact @FoldLaw.merge_fold_law_unconditional_refuted. Qed.
+Print Assumptions C09_merge_fold_law_unconditional_refuted.
+
